@@ -494,6 +494,7 @@ static std::string run_trace(const std::string &body, std::string &oracle)
     {
         RcTrace t;
         try {
+            long n_thrown = 0;
             for (auto &op : split(body, ';')) {
                 auto kv = split(op, ':');
                 const std::string &k = kv[0];
@@ -557,46 +558,60 @@ static std::string run_trace(const std::string &body, std::string &oracle)
                     t.poolStr.push_back(t.poolStr[i]);
                 } else {
                     B r;
-                    if (k == "sym")
-                        r = symbol(a[0]);
-                    else if (k == "int")
-                        r = integer(std::stol(a[0]));
-                    else if (k == "rat") {
-                        auto pq = split(a[0], '/');
-                        r = Rational::from_two_ints(*integer(std::stol(pq[0])), *integer(std::stol(pq[1])));
-                    } else if (k == "add")
-                        r = add(slot(t, a[0]), slot(t, a[1]));
-                    else if (k == "mul")
-                        r = mul(slot(t, a[0]), slot(t, a[1]));
-                    else if (k == "sub")
-                        r = sub(slot(t, a[0]), slot(t, a[1]));
-                    else if (k == "div")
-                        r = div(slot(t, a[0]), slot(t, a[1]));
-                    else if (k == "pow")
-                        r = pow(slot(t, a[0]), slot(t, a[1]));
-                    else if (k == "neg")
-                        r = neg(slot(t, a[0]));
-                    else if (k == "expand")
-                        r = expand(slot(t, a[0]));
-                    else if (k == "sin")
-                        r = sin(slot(t, a[0]));
-                    else if (k == "cos")
-                        r = cos(slot(t, a[0]));
-                    else if (k == "exp")
-                        r = exp(slot(t, a[0]));
-                    else if (k == "log")
-                        r = log(slot(t, a[0]));
-                    else if (k == "diff") {
-                        B s = slot(t, a[1]);
-                        if (!is_a<Symbol>(*s))
-                            throw std::runtime_error("diff wrt non-symbol");
-                        r = slot(t, a[0])->diff(rcp_static_cast<const Symbol>(s));
-                    } else if (k == "subs") {
-                        map_basic_basic m;
-                        m[slot(t, a[1])] = slot(t, a[2]);
-                        r = slot(t, a[0])->subs(m);
-                    } else
-                        return "bad-op";
+                    bool threw = false;
+                    try {
+                        if (k == "sym")
+                            r = symbol(a[0]);
+                        else if (k == "int")
+                            r = integer(std::stol(a[0]));
+                        else if (k == "rat") {
+                            auto pq = split(a[0], '/');
+                            r = Rational::from_two_ints(*integer(std::stol(pq[0])), *integer(std::stol(pq[1])));
+                        } else if (k == "add")
+                            r = add(slot(t, a[0]), slot(t, a[1]));
+                        else if (k == "mul")
+                            r = mul(slot(t, a[0]), slot(t, a[1]));
+                        else if (k == "sub")
+                            r = sub(slot(t, a[0]), slot(t, a[1]));
+                        else if (k == "div")
+                            r = div(slot(t, a[0]), slot(t, a[1]));
+                        else if (k == "pow")
+                            r = pow(slot(t, a[0]), slot(t, a[1]));
+                        else if (k == "neg")
+                            r = neg(slot(t, a[0]));
+                        else if (k == "expand")
+                            r = expand(slot(t, a[0]));
+                        else if (k == "sin")
+                            r = sin(slot(t, a[0]));
+                        else if (k == "cos")
+                            r = cos(slot(t, a[0]));
+                        else if (k == "exp")
+                            r = exp(slot(t, a[0]));
+                        else if (k == "log")
+                            r = log(slot(t, a[0]));
+                        else if (k == "diff") {
+                            B s = slot(t, a[1]);
+                            if (!is_a<Symbol>(*s))
+                                throw std::runtime_error("diff wrt non-symbol");
+                            r = slot(t, a[0])->diff(rcp_static_cast<const Symbol>(s));
+                        } else if (k == "subs") {
+                            map_basic_basic m;
+                            m[slot(t, a[1])] = slot(t, a[2]);
+                            r = slot(t, a[0])->subs(m);
+                        } else
+                            return "bad-op";
+                    } catch (const SymEngine::VerifAssertError &) {
+                        throw;
+                    } catch (const SymEngine::SymEngineException &) {
+                        // a library exception (0**-2, log(0), ...) ends the program here: the temporaries were
+                        // unwound, so every count must still equal the tracked references (checked below)
+                        threw = true;
+                    }
+                    if (threw) {
+                        n_thrown++;
+                        t.checkpoint();
+                        break;
+                    }
                     t.ingest(r);
                 }
                 t.checkpoint();
@@ -617,6 +632,8 @@ static std::string run_trace(const std::string &body, std::string &oracle)
                 if (!t.ext.count(kv.first))
                     t.failOnce("FAIL:leak:tracked object survives all handles");
             result = join(t.toks, " ");
+            if (n_thrown)
+                stat("trace_ended_by_exception", n_thrown);
         } catch (const Opaque &o) {
             result = "OPAQUE " + o.cls;
             stat("trace_opaque");
@@ -701,7 +718,8 @@ static void workload(const std::string &kind, uint64_t seed, int size, WCount &w
     Rng r(seed);
     RCP<const Symbol> x = symbol("x"), y = symbol("y"), z = symbol("z");
     std::vector<B> syms = {x, y, z};
-    for (int it = 0; it < size; it++) {
+    for (int it = 0; it < size; it++)
+        try { // building the random operands may itself throw (e.g. 0**-2): counted, not fatal
         if (kind == "arith") {
             B a = rexpr(r, syms, 3), b = rexpr(r, syms, 3);
             TRY(B c = add(mul(a, b), sub(a, b)); B d = div(c, add(b, integer(7))); (void)d->hash();
@@ -782,10 +800,8 @@ static void workload(const std::string &kind, uint64_t seed, int size, WCount &w
                 (void)C.__str__());
             TRY((void)A.rank()); // NotImplemented for DenseMatrix at present
             TRY((void)A.is_zero(); (void)A.is_diagonal(); (void)A.is_symmetric());
-            // is_lower()/is_upper() index columns with nrows(): out of bounds for nrows > ncols (reported defect);
-            // square only until the fix is in
-            if (nr == nc)
-                TRY((void)A.is_lower(); (void)A.is_upper());
+            // rectangular too: is_lower()/is_upper() used to index columns with nrows() (fixed in /repo 1687e4b)
+            TRY((void)A.is_lower(); (void)A.is_upper());
             TRY(DenseMatrix T(nc, nr); A.transpose(T); DenseMatrix P(nr, nr); A.mul_matrix(T, P); (void)P.det();
                 (void)P.is_symmetric());
             if (sq) {
@@ -877,7 +893,9 @@ static void workload(const std::string &kind, uint64_t seed, int size, WCount &w
             m[z] = Rational::from_two_ints(*integer(5), *integer(3));
             TRY(B v = a->subs(m); (void)eval_double(*v));
         }
-    }
+        } catch (const SymEngine::SymEngineException &) {
+            wc.exc++;
+        }
 }
 
 static std::string run_workload(const std::string &kind, uint64_t seed, int size, std::string &oracle)
